@@ -649,14 +649,10 @@ func (lf *LenFlow) mentionsStatic(e ast.Expr) bool {
 			return
 		case *ast.IndexExpr:
 			if lf.isX(y.X) {
-				visit(y.Index)
-				return
+				return // an element of X is content, not length
 			}
 		case *ast.SliceExpr:
 			if lf.isX(y.X) {
-				visit(y.Low)
-				visit(y.High)
-				visit(y.Max)
 				return
 			}
 		case *ast.Ident:
@@ -700,8 +696,19 @@ func (lf *LenFlow) mentionsLen(e ast.Expr, s S) bool {
 	}
 	found := false
 	ast.Inspect(e, func(n ast.Node) bool {
-		if id, ok := n.(*ast.Ident); ok {
-			if o := ObjOf(lf.info, id); o != nil {
+		switch y := n.(type) {
+		case *ast.FuncLit:
+			return false
+		case *ast.IndexExpr:
+			if lf.isX(y.X) {
+				return false
+			}
+		case *ast.SliceExpr:
+			if lf.isX(y.X) {
+				return false
+			}
+		case *ast.Ident:
+			if o := ObjOf(lf.info, y); o != nil {
 				if r := s.Get("n:" + VarID(o)); r != "" && !strings.HasPrefix(r, "c:") {
 					found = true
 				}
